@@ -3,6 +3,7 @@ import XV.Driver.Util
 import XV.Spec.Magic
 import XV.Spec.OpTables
 import XV.Driver.LinesOps
+import XV.Driver.DecodeOps
 namespace XV.Driver
 open XV XV.Model
 
@@ -31,6 +32,8 @@ def dispatch (op : String) (args : List String) : String :=
       s!"{t.name}:{t.version.1}.{t.version.2}:{if (Spec.OpTables.refFor t).isSome then "ref" else if (Spec.OpTables.snapFor t).isSome then "snap" else "none"}")
   | _, _ => match linesDispatch op args with
     | some r => r
-    | none => "(err bad-op)"
+    | none => match decodeDispatch op args with
+      | some r => r
+      | none => "(err bad-op)"
 
 end XV.Driver
